@@ -65,7 +65,8 @@ for pid in sys.argv[1:]:
                 print("/repo dirty, stopping"); sys.exit(2)
             try:
                 rc, out = sh(f"git -C /repo apply {patch}")
-                for c in ALL:
+                # SEED_CHECKS=own limits the run to the check of the change's own property (the full matrix takes ~7 min per change)
+                for c in ([pid] if os.environ.get('SEED_CHECKS') == 'own' else ALL):
                     t0 = time.time()
                     rc, out = sh(f"./check {c} quick", cwd="/verif")
                     msg = [l for l in out.splitlines() if l.startswith("FAILURE section")]
@@ -75,7 +76,7 @@ for pid in sys.argv[1:]:
             rec["quick_checks"] = {c: ("CAUGHT" if v["rc"] == 1 else "silent" if v["rc"] == 0 else f"rc{v['rc']}") for c, v in caught.items()}
             rec["caught_by"] = [c for c, v in caught.items() if v["rc"] == 1]
             rec["first_messages"] = {c: v["message"] for c, v in caught.items() if v["rc"] == 1}
-            rec["ran"].append("git -C /repo apply patch.diff; ./check Cxx quick for C01..C19; git -C /repo checkout -- .")
+            rec["ran"].append("git -C /repo apply patch.diff; ./check Cxx quick for " + ("the own property only" if os.environ.get("SEED_CHECKS") == "own" else "C01..C19") + "; git -C /repo checkout -- .")
         os.makedirs(dest, exist_ok=True)
         shutil.copy(patch, f"{dest}/patch.diff"); shutil.copy(f"{od}/demo{i}.rs", f"{dest}/demo.rs")
         json.dump(rec, open(f"{dest}/meta.json", "w"), indent=1)
